@@ -76,6 +76,13 @@ func genC13(out *Out, r *Rng, tier string, n int, shard int) {
 		g := NewDocGen(r, 1+r.Intn(3))
 		g.prime = hs.Prime
 		root := g.node(g.sch.Root, 0, r.Bool())
+		if i%8 == 5 {
+			// a document that says nothing: it merklizes to no entries at all, and that merklizer round-trips like any other
+			root = &ANode{ID: g.iri("node")}
+			if r.Bool() {
+				root.ID = ""
+			}
+		}
 		doc := g.Render(root, randomPresentation(r))
 		loader := &mapLoader{docs: map[string][]byte{g.sch.URL: g.ContextDoc()}}
 		var facts []Fact
